@@ -141,19 +141,30 @@ func (c *blkCompiler) compile(p *Prog, b *Blk) (in, out string) {
 		x, m := c.fresh("X"), c.fresh("M")
 		xn := p.Node("xor", x)
 		p.Node("xor", m)
-		ti, to := c.compile(p, b.Kids[0])
-		if ti == "" {
-			p.Flow(x, m, fmt.Sprintf("v%d", b.ID))
-		} else {
-			p.Flow(x, ti, fmt.Sprintf("v%d", b.ID))
-			p.Flow(to, m, "")
+		then := func() {
+			ti, to := c.compile(p, b.Kids[0])
+			if ti == "" {
+				p.Flow(x, m, fmt.Sprintf("v%d", b.ID))
+			} else {
+				p.Flow(x, ti, fmt.Sprintf("v%d", b.ID))
+				p.Flow(to, m, "")
+			}
 		}
-		ei, eo := c.compile(p, b.Kids[1])
-		if ei == "" {
-			xn.Default = p.Flow(x, m, "").ID
+		els := func() {
+			ei, eo := c.compile(p, b.Kids[1])
+			if ei == "" {
+				xn.Default = p.Flow(x, m, "").ID
+			} else {
+				xn.Default = p.Flow(x, ei, "").ID
+				p.Flow(eo, m, "")
+			}
+		}
+		if c.n%4 < 2 { // the order in which the outgoing flows are listed must not matter: default flow last / first
+			then()
+			els()
 		} else {
-			xn.Default = p.Flow(x, ei, "").ID
-			p.Flow(eo, m, "")
+			els()
+			then()
 		}
 		return x, m
 	case "loop": // merge -> body -> split; split -[v]-> merge; default -> out
